@@ -241,20 +241,24 @@ def log_of(stdout):
     return [l for l in stdout.split('\n') if l.startswith(('A|', 'END|'))]
 
 def validate(b, vectors, bins):
-    """same vectors through clang(IR) and gcc(translated C): every logged value must agree"""
+    """same vectors through clang(IR) and gcc(translated C): every logged value must agree.
+    A vector on which the code under test executes undefined behaviour (confirmed by the ASan/UBSan build of the IR, or a crash)
+    is not a translation difference: it is skipped here and left to the solver's own checks."""
     ir_bin, c_bin = bins
-    n = 0
+    n = 0; b.ub_vectors = 0; asan_bin = None
     for i, vec in enumerate(vectors):
-        rc1, o1, e1 = run_native(ir_bin, vec, b.wd, 'v')
-        rc2, o2, e2 = run_native(c_bin, vec, b.wd, 'v')
+        rc1, o1, e1 = run_native(ir_bin, vec, b.wd, 'v%d' % i)
+        rc2, o2, e2 = run_native(c_bin, vec, b.wd, 'v%d' % i)
         l1, l2 = log_of(o1), log_of(o2)
-        if rc1 < 0 and rc2 < 0 and rc1 == rc2 and l1 == l2:   # both crash identically on a wild vector: not a translation difference
+        if l1 == l2 and rc1 == rc2:
             n += 1; continue
-        if l1 != l2 or rc1 != rc2:
-            d = next((k for k in range(min(len(l1), len(l2))) if l1[k] != l2[k]), min(len(l1), len(l2)))
-            raise Inconclusive('translator validation FAILED on vector %d of %s: clang(IR) rc=%s vs gcc(C) rc=%s; first difference at log line %d: %r vs %r; internal: %s'
-                               % (i, b.h['name'], rc1, rc2, d, l1[d:d+1], l2[d:d+1], [l for l in o2.split('\n') if l.startswith('I|')][:3]))
-        n += 1
+        if asan_bin is None: asan_bin, _ = native_build(b, asan=True)
+        rc3, o3, e3 = run_native(asan_bin, vec, b.wd, 'v%d' % i)
+        if rc3 in (98, 99) or rc3 < 0 or rc1 < 0 or rc2 < 0:   # sanitizer report or a crash in either build: UB in the code under test on this vector
+            b.ub_vectors += 1; continue
+        d = next((k for k in range(min(len(l1), len(l2))) if l1[k] != l2[k]), min(len(l1), len(l2)))
+        raise Inconclusive('translator validation FAILED on vector %d of %s: clang(IR) rc=%s vs gcc(C) rc=%s; first difference at log line %d: %r vs %r; internal: %s'
+                           % (i, b.h['name'], rc1, rc2, d, l1[d:d+1], l2[d:d+1], [l for l in o2.split('\n') if l.startswith('I|')][:3]))
     return n
 
 def classify(results):
